@@ -16,7 +16,7 @@ import vlib
 H1_SOURCES = ['harness/h1/main.cpp', 'harness/h1/pol_part0.cpp', 'harness/h1/pol_part1.cpp', 'harness/h1/pol_part2.cpp', 'harness/h1/pol_part3.cpp', 'harness/h1/textgen.cpp']
 FULL_SHAPES = ['v', 'v', 'v', 'vv', 'vv', 'vv', 'vvv', 'vvv', 'vvvv', 'nv', 'vn', 'vnv', 'vnv', 'nvnv', 'vvn', 'nvvn', 'vnvnv', 'vnnv']
 LITE_SHAPES = ['v', 'v', 'vv', 'vv', 'vvv', 'vnv', 'nv']
-ALL_POLICIES = ['vec', 'hash', 'chk', 'map', 'ind', 'thr', 'bc', 'proj', 'def', 'defvec', 'chk2', 'vec2', 'map2']
+ALL_POLICIES = ['vec', 'hash', 'chk', 'map', 'ind', 'thr', 'bc', 'proj', 'def', 'defvec', 'chk2', 'vec2', 'map2', 'cmap', 'cmap2']
 CHECKED = {'chk', 'thr', 'proj', 'chk2'}
 
 
@@ -349,7 +349,7 @@ def parse_obs(lines):
 
 
 MODEL_ONLY = ('spec ', 'specnext ', 'specreport', 'model-')
-IMPL_ONLY = ('reads ', 'resolve ', 'probe ')
+IMPL_ONLY = ('reads ', 'resolve ', 'probe ', 'keptvptr ')
 
 
 def diff_obs(impl, model, has_call):
